@@ -182,6 +182,26 @@ func checkRoundTrip(ct *jsonx.CTree, how int) (string, error) {
 		if err != nil {
 			return fmt.Errorf("second round trip differs: %v", err)
 		}
+		// serialise, change a nested container through its own handle, serialise again
+		if child := firstChild(c); child != nil {
+			mutateChild(child)
+			want, err := jsonx.Project(c)
+			if err != nil {
+				return fmt.Errorf("container cannot be read after a nested change: %v", err)
+			}
+			text3 := jsonx.Str(c)
+			p3, err := jsonx.Parse(rootKind(ct), text3)
+			if err != nil {
+				return fmt.Errorf("parsing String() after a nested change failed: %v (%s)", err, text3)
+			}
+			got, err := jsonx.Project(p3)
+			if err == nil {
+				err = jsonx.EqualTree(want, got, "$")
+			}
+			if err != nil || !jsonx.Equals(p3, c) {
+				return fmt.Errorf("String() after a change made through a nested container's handle does not round-trip to the container (%s): %v", text3, err)
+			}
+		}
 		return nil
 	})
 	return text, err
@@ -219,6 +239,21 @@ func checkStdJSON(ct *jsonx.CTree, how int) (string, error) {
 		}
 		if err != nil {
 			return fmt.Errorf("String() modified the container: %v", err)
+		}
+		if child := firstChild(c); child != nil {
+			mutateChild(child)
+			want, err := jsonx.Project(c)
+			if err != nil {
+				return fmt.Errorf("container cannot be read after a nested change: %v", err)
+			}
+			text3 := jsonx.Str(c)
+			st3, err := jsonx.StrictParse(text3)
+			if err == nil {
+				err = jsonx.EqualTree(want, st3, "$")
+			}
+			if err != nil {
+				return fmt.Errorf("String() after a change made through a nested container's handle does not denote the container's content (%s): %v", text3, err)
+			}
 		}
 		return nil
 	})
@@ -540,7 +575,7 @@ func cmdSer(args []string) int {
 		for k := 0; k < *picks; k++ {
 			p := jsonx.NewPicker(*seed*7919+int64(i)*31+int64(k), int(*seed)+i+k*13)
 			ct := jsonx.Concretise(d.Tree, p)
-			how := (i + k) % 3
+			how := (i + k) % 4
 			var l []jsonx.LayoutTok
 			if *check == "format" {
 				l = lay
